@@ -42,6 +42,10 @@ def build(chk):
     T15.c_template_matching(chk)
     from .common import template_frame
     template_frame(chk)
+    # Thermodynamics.csqLowT (observation point; v-^2 = min(vw^2, csqLowT(T-))) and the other EOS methods: the reported sound speed is
+    # (dp/dT)/(de/dT) in every region of each phase's own range (shared with C10)
+    from .C10_thermodynamics import c_eos
+    c_eos(chk)
 
 
 def c_deflag(chk):
